@@ -115,6 +115,19 @@ def closure_env(fn):
     return fn[2]
 
 
+def cell_get(env, name):
+    """the closure's counter: a one-element list (current code) or a ``nonlocal`` scalar -- both are the same state"""
+    v = env[name]
+    return v[0] if isinstance(v, list) else v
+
+
+def cell_set(env, name, val):
+    if isinstance(env[name], list):
+        env[name][0] = val
+    else:
+        env[name] = val
+
+
 # ------------------------------------------------------------------------------------------------ limited_use
 def run_limited_use(chk):
     funcs = load()
@@ -136,16 +149,16 @@ def run_limited_use(chk):
                 get_best, wrapped = e.call("limited_use", dict(f=f, max_evaluations=mx))
                 env = closure_env(wrapped)
                 # arbitrary state satisfying the invariant (ghost: best0 = max of the values seen so far)
-                env["evals"][0] = e0
-                env["best_fval"][0] = b0
-                env["best_x"][0] = bx0
+                cell_set(env, "evals", e0)
+                cell_set(env, "best_fval", b0)
+                cell_set(env, "best_x", bx0)
                 e.state["env"] = env
                 try:
                     r = e.call_value(wrapped, [x], {}, {})
                     e.state["step"] = ("return", r)
                 except Raise as ex:
                     e.state["step"] = ("raise", ex.kind)
-                e.state["after"] = (env["evals"][0], env["best_fval"][0], env["best_x"][0])
+                e.state["after"] = (cell_get(env, "evals"), cell_get(env, "best_fval"), cell_get(env, "best_x"))
                 e.state["H1"] = list(e.state.get("H", []))
                 # then get_best()
                 gb = e.call_value(get_best, [], {}, {})
@@ -199,7 +212,7 @@ def run_limited_use(chk):
     def entry0(e):
         get_best, wrapped = e.call("limited_use", dict(f=Opaque("fn"), max_evaluations=None))
         env = closure_env(wrapped)
-        return (env["evals"][0], env["best_fval"][0], env["best_x"][0])
+        return (cell_get(env, "evals"), cell_get(env, "best_fval"), cell_get(env, "best_x"))
     for k, p in enumerate(eng.run(entry0, BASE)):
         ev, b, bx = p.value
         goal = z3.And(z3.BoolVal(ev == 0 if not is_sym(ev) else False) if not is_sym(ev) else ev == 0, b == -INF, z3.BoolVal(bx is None))
@@ -555,10 +568,10 @@ def run(chk):
     chk.function(SCOPE, "ParameterController.optimise", "P")
     only = getattr(chk, "only", None)
     if not only or "proof" in only:
-        run_limited_use(chk)
-        run_wrappers(chk)
-        run_maximise(chk)
-        run_pc_optimise(chk)
+        chk.guard(run_limited_use)
+        chk.guard(run_wrappers)
+        chk.guard(run_maximise)
+        chk.guard(run_pc_optimise)
         chk.discharge()
     chk.assume("float is modelled as the extended reals [-INF, INF]; NaN is excluded by precondition; rounding is not modelled")
     chk.assume("the optimisers (Powell, simulated annealing) are arbitrary callers of the wrapped function: only the "
